@@ -190,6 +190,11 @@ func runC16(c *Ctx) {
 
 	// R16.4 no reference into package-level mutable state is handed out or stored elsewhere
 	r.Rule("R16.4", "no pointer into package-level state that could be modified through it leaves the function that obtained it")
+	// cells are copied by value between tables and share their property-chain links: tables stay independent only
+	// while those links are never modified once built (C12's R12.1)
+	r.Rule("R16.5", "structure shared by by-value copies of a cell (property-chain links, callback lists) is never modified in place")
+	importPremises(c, "R16.5", "shared-structure premise ", "two tables holding copies of one cell would write the same memory", func(o *Ob) bool { return o.Rule == "R12.1" }, func() { runC12(c) })
+	importPremises(c, "R16.5", "shared-structure premise ", "two tables holding copies of one cell would append into the same backing array", func(o *Ob) bool { return o.Rule == "R13.6" }, func() { runC13(c) })
 	nesc := 0
 	nseen := 0
 	for _, fn := range c.LibFuncs() {
